@@ -266,6 +266,9 @@ var skels = []skel{
 	}},
 	// number holes
 	{"num-where", "num", func(h *E, _ Ident) *Program { return Query("T", &Op{K: "where", X: Bin("==", Name("a"), h)}) }},
+	{"num-datetime", "num", func(h *E, _ Ident) *Program {
+		return Query("T", &Op{K: "where", X: Bin(">", Name("ts"), Call("datetime", h))}, &Op{K: "extend", Cols: []Col{{Name: idp("d"), X: Call("date", h, Num("1"))}}})
+	}},
 	{"num-strcat", "num", func(h *E, _ Ident) *Program {
 		return Query("T", &Op{K: "extend", Cols: []Col{{Name: idp("s"), X: Call("strcat", Name("a"), Str("'v'", "v"), h, Str("'w'", "w"))}}})
 	}},
@@ -301,7 +304,7 @@ var idioms = []string{
 
 var prefixFills = []string{"", "\"", "\\", "'", "`", "\" AS (SELECT 1) SELECT * FROM secrets -- ", "\\\"", "a\"b", "x\\", " ", ";", "--", "/*", "\x00", "é"}
 
-var numFills = []string{"0", "1", "7", "42", "007", "00", "0.5", ".5", "5.", "0.", "1.50", "00.10", "1e3", "1E3", "1e+3", "1e-3", "2.5e10", "5.e2", ".5e1", "0e0", "1e0", "1e00", "1e01",
+var numFills = []string{"0", "1", "7", "42", "2024", "1999", "0999", "12345", "2024.0", "007", "00", "0.5", ".5", "5.", "0.", "1.50", "00.10", "1e3", "1E3", "1e+3", "1e-3", "2.5e10", "5.e2", ".5e1", "0e0", "1e0", "1e00", "1e01",
 	"0x0", "0x1F", "0XaB", "0xffffffffffffffff", "0x7fffffffffffffff", "18446744073709551615", "9223372036854775808", "123456789012345678901234567890", "1e308", "1e-320", "0.000001", "100", "1e400",
 	"0x000000000000000ff", "0x0ffffffffffffffff", "0x8000000000000000", "18446744073709551616", "00000000000000000000018446744073709551615", "1E5", "25E2", "7E+3", "0E9", "1e00000000000000000001"}
 var intFills = []string{"0", "1", "7", "42", "007", "00", "100", "0x0", "0x1F", "0XaB", "0xffffffffffffffff", "18446744073709551615", "123456789012345678901234567890",
